@@ -31,7 +31,9 @@ pub const F_BAD_ARGUMENT: usize = 17;
 pub const F_INVALID_BYTES: usize = 18;
 pub const F_FORK: usize = 19;
 pub const F_RESTORE: usize = 20;
-pub const N_FAULTS: usize = 21;
+pub const F_RESET_STORM: usize = 21;
+pub const F_DUP_STORM: usize = 22;
+pub const N_FAULTS: usize = 23;
 pub const FAULT_NAMES: [&str; N_FAULTS] = [
     "drop",
     "dup",
@@ -54,6 +56,8 @@ pub const FAULT_NAMES: [&str; N_FAULTS] = [
     "invalid-bytes",
     "fork",
     "checkpoint-restore",
+    "reset-storm",
+    "dup-storm",
 ];
 
 /// Per-property weights. One world, shifted towards the property's subject.
@@ -233,6 +237,12 @@ pub fn draw_cfg(r: &mut Rng, p: &Preset) -> Cfg {
         }
         if r.chance(1, 3) {
             rate[F_POLL_STORM] = *r.pick(&[20u64, 60]);
+        }
+        if r.chance(1, 6) {
+            rate[F_RESET_STORM] = *r.pick(&[100u64, 300]);
+        }
+        if r.chance(1, 12) {
+            rate[F_DUP_STORM] = *r.pick(&[10u64, 30]);
         }
         if r.chance(1, 4) {
             rate[F_POLL_WRONG_CHANNEL] = *r.pick(&[20u64, 80]);
@@ -780,6 +790,13 @@ impl<'a> Gen<'a> {
             });
         }
         out.push((lat, m.clone()));
+        if self.strikes(F_DUP_STORM, ch) {
+            self.fire(F_DUP_STORM, ch);
+            let k = *self.r.pick(&[15u32, 127, 255, 256, 257]);
+            for _ in 0..k {
+                out.push((lat, m.clone()));
+            }
+        }
         if self.strikes(F_DUP, ch) {
             self.fire(F_DUP, ch);
             let extra = match self.r.below(3) {
@@ -829,7 +846,33 @@ impl<'a> Gen<'a> {
     }
 
     fn emit_reset(&mut self) {
-        self.ev.push(Ev::Reset);
+        // a fraction of resets are storms: counters that wrap want powers of two
+        if self.cfg.rate[F_RESET_STORM] > 0 && self.r.below(1000) < self.cfg.rate[F_RESET_STORM] {
+            let n = match self.r.below(20) {
+                0..=3 => 2 + self.r.below(4) as u32,
+                4 => 16,
+                5 => 127 + self.r.below(3) as u32,
+                6..=9 => 255 + self.r.below(3) as u32,
+                10..=12 => 256,
+                13 => 511 + self.r.below(3) as u32,
+                14 => 512,
+                15 => 1024,
+                16 => 768,
+                17 | 18 => {
+                    // 16-bit wrap: expensive (every shadow instance gets the same number of resets), so rare
+                    if self.r.chance(1, 40) {
+                        65535 + self.r.below(3) as u32
+                    } else {
+                        256 * (1 + self.r.below(4) as u32)
+                    }
+                }
+                _ => 2 + self.r.below(600) as u32,
+            };
+            self.fire(F_RESET_STORM, None);
+            self.ev.push(Ev::Resets { n });
+        } else {
+            self.ev.push(Ev::Reset);
+        }
         self.inflight = [false; 16];
         self.pending_value = [false; 16];
     }
@@ -987,7 +1030,8 @@ impl<'a> Gen<'a> {
                         }
                         if self.strikes(F_POLL_STORM, Some(c)) {
                             self.fire(F_POLL_STORM, Some(c));
-                            for _ in 0..(2 + self.r.below(4)) {
+                            let k = if self.r.chance(1, 12) { 255 + self.r.below(3) } else { 2 + self.r.below(4) };
+                            for _ in 0..k {
                                 sched!(at, Action::PollAt(c, None));
                             }
                         }
